@@ -144,7 +144,7 @@ theorem collect_length (ms : List Method) :
 theorem rest_methods_nodup (i : Iface) (plans : List Plan) (b : Bool) (h : generate i = .ok plans b) :
     plans.map (·.name) = (i.methods.filter cookedOk).map (·.name) ∧
     ((i.methods.map (·.name)).Nodup → (plans.map (·.name)).Nodup) := by
-  unfold generate at h
+  unfold generate generateH at h
   simp only at h
   cases hc : collect (i.methods.map cookMethod) with
   | none => simp [hc] at h
